@@ -167,10 +167,13 @@ def check(case, ctx: Ctx):
                 # how many channels of this basis have a pulse slot (of any
                 # amplitude) covering this atom at that time?
                 # (the tree's slots extend over the pulse's fall time, <= 2 rise times)
+                # (a channel left in EOM mode keeps "playing" on its last targets: its
+                #  padded tail carries a held phase as well)
                 cover = sum(
-                    1 for c in chans.values() if c.basis == basis and any(
+                    1 for c in chans.values() if c.basis == basis and (any(
                         ti <= i < tf + 2 * c.obj.rise_time + 1 and q in tg
-                        for (ti, tf, tg, p, real) in c.pulses))
+                        for (ti, tf, tg, p, real) in c.pulses) or (
+                        c.in_eom and i >= c.T and c.pulses and q in c.pulses[-1][2])))
                 disc = ("phase:summed_over_channels_same_basis" if cover >= 2
                         else "phase:all_local")
                 ctx.fail("C06.atom", disc,
